@@ -129,6 +129,9 @@ pub struct WorldOpts {
     pub reward_is_dummy: bool,
     /// leave the hub without validators registry and airdrop registry (C10 state class)
     pub skip_registry: bool,
+    /// staged deployment: leave one of the token addresses unregistered in the hub
+    pub skip_bsei_token: bool,
+    pub skip_stsei_token: bool,
 }
 
 pub fn build_world(c: &Cfg) -> Result<World, String> {
@@ -227,8 +230,8 @@ pub fn build_world_with(c: &Cfg, o: &WorldOpts) -> Result<World, String> {
         &to_json_binary(&h::ExecuteMsg::UpdateConfig {
             rewards_dispatcher_contract: Some(DISPATCHER.into()),
             validators_registry_contract: if o.skip_registry { None } else { Some(REGISTRY.into()) },
-            bsei_token_contract: Some(BSEI.into()),
-            stsei_token_contract: Some(STSEI.into()),
+            bsei_token_contract: if o.skip_bsei_token { None } else { Some(BSEI.into()) },
+            stsei_token_contract: if o.skip_stsei_token { None } else { Some(STSEI.into()) },
             airdrop_registry_contract: if o.skip_registry { None } else { Some(AIRDROP.into()) },
             rewards_contract: Some(REWARD.into()),
             update_reward_index_addr: None,
